@@ -109,54 +109,72 @@ def grep_forbidden(paths):
 # ---------------------------------------------------------------- harness / model runners
 
 def _run_harness_chunk(reqs, per_req_timeout):
-    """Run one harness process over reqs; returns list of responses (dicts). A request that kills or
-    hangs the child is answered {"abort": ...} / {"hang": true} and the rest is re-run."""
+    """Run one harness process over reqs; returns the list of responses (dicts). Responses are read as they come:
+    a request that does not answer within per_req_timeout is answered {"hang": true}, a request on which the
+    child dies {"abort": ...}; the child is then restarted on the remaining requests."""
+    import select, threading
     out = []
     i = 0
     while i < len(reqs):
         chunk = reqs[i:]
-        data = "".join(json.dumps(r) + "\n" for r in chunk)
-        budget = max(20.0, per_req_timeout * min(len(chunk), 50) + 0.02 * len(chunk))
+        p = subprocess.Popen([HARNESS_BIN], stdin=subprocess.PIPE, stdout=subprocess.PIPE, stderr=subprocess.PIPE)
+        data = "".join(json.dumps(r) + "\n" for r in chunk).encode()
+
+        def feed(proc=p, payload=data):
+            try:
+                proc.stdin.write(payload)
+                proc.stdin.close()
+            except Exception:
+                pass
+        threading.Thread(target=feed, daemon=True).start()
+        got = 0
+        buf = b""
+        status = "done"
+        last = time.time()
+        fd = p.stdout.fileno()
+        while got < len(chunk):
+            remaining = per_req_timeout - (time.time() - last)
+            if remaining <= 0:
+                status = "hang"
+                break
+            r, _, _ = select.select([fd], [], [], min(remaining, 1.0))
+            if not r:
+                if p.poll() is not None and not select.select([fd], [], [], 0)[0]:
+                    status = "dead"
+                    break
+                continue
+            piece = os.read(fd, 1 << 16)
+            if not piece:
+                status = "dead"
+                break
+            buf += piece
+            while b"\n" in buf:
+                line, buf = buf.split(b"\n", 1)
+                if not line.strip():
+                    continue
+                try:
+                    out.append(json.loads(line.decode("utf-8", "replace")))
+                except Exception:
+                    out.append({"abort": "unparsable response " + line[:200].decode("utf-8", "replace")})
+                got += 1
+                last = time.time()
+        i += got
+        if status == "done":
+            try:
+                p.wait(timeout=5)
+            except Exception:
+                p.kill()
+            continue
+        err = b""
         try:
-            p = subprocess.run([HARNESS_BIN], input=data, stdout=subprocess.PIPE, stderr=subprocess.PIPE,
-                               text=True, timeout=budget, errors="replace")
-            lines = [l for l in p.stdout.split("\n") if l.strip()]
-            got = []
-            for l in lines:
-                try:
-                    got.append(json.loads(l))
-                except Exception:
-                    break
-            out.extend(got)
-            i += len(got)
-            if len(got) < len(chunk):
-                # the child died on request i
-                out.append({"abort": f"rc={p.returncode} {p.stderr[-300:]}"})
-                i += 1
-        except subprocess.TimeoutExpired as e:
-            so = e.stdout or b""
-            if isinstance(so, bytes):
-                so = so.decode("utf-8", "replace")
-            lines = [l for l in so.split("\n") if l.strip()]
-            got = []
-            for l in lines:
-                try:
-                    got.append(json.loads(l))
-                except Exception:
-                    break
-            out.extend(got)
-            i += len(got)
-            if i < len(reqs):
-                if len(got) == 0:
-                    # is it this one request? run it alone with the per-request timeout
-                    try:
-                        p = subprocess.run([HARNESS_BIN], input=json.dumps(reqs[i]) + "\n", stdout=subprocess.PIPE,
-                                           stderr=subprocess.PIPE, text=True, timeout=per_req_timeout, errors="replace")
-                        l = p.stdout.strip().split("\n")[0] if p.stdout.strip() else ""
-                        out.append(json.loads(l) if l else {"abort": f"rc={p.returncode} {p.stderr[-300:]}"})
-                    except subprocess.TimeoutExpired:
-                        out.append({"hang": True})
-                    i += 1
+            p.kill()
+            err = p.stderr.read() or b""
+            p.wait(timeout=5)
+        except Exception:
+            pass
+        if i < len(reqs):
+            out.append({"hang": True} if status == "hang" else {"abort": f"rc={p.returncode} {err[-300:].decode('utf-8', 'replace')}"})
+            i += 1
     return out
 
 
